@@ -369,6 +369,7 @@ fn count_fired(plan: &crate::run::Plan, res: &RunResult, fired: &mut BTreeMap<&'
             Op::Pid { .. } => bump("pid_change"),
             Op::Frag { .. } => bump("heap_fragment"),
             Op::FsWipe => bump("fs_wipe"),
+            Op::FsTear { .. } => bump("fs_tear"),
             Op::Expand { w, input, fmt } => {
                 if *fmt != 0 {
                     bump("reformat");
@@ -433,6 +434,7 @@ pub fn shard_main(a: &Args) -> i32 {
     let mut cwd_reads = 0u64;
     let mut fs_calls = 0u64;
     let mut ncpu_reads = 0u64;
+    let mut files_torn = 0u64;
     let mut violations: Vec<J> = vec![];
     let mut harness_errors: Vec<J> = vec![];
     let mut samples: Vec<J> = vec![];
@@ -462,6 +464,7 @@ pub fn shard_main(a: &Args) -> i32 {
         nontrivial.extend(res.nontrivial.iter().copied());
         hist.extend(res.hist_prefixes.iter().copied());
         canaries.extend(res.canaries.iter().cloned());
+        files_torn += res.files_torn;
         expansions += res.events.len() as u64;
         ops += res.ops_executed as u64;
         worlds += plan.scenario.worlds.len() as u64;
@@ -603,6 +606,7 @@ pub fn shard_main(a: &Args) -> i32 {
         .set("cwd_reads_worker", J::i(cwd_reads))
         .set("fs_calls_worker", J::i(fs_calls))
         .set("ncpu_reads_worker", J::i(ncpu_reads))
+        .set("files_torn", J::i(files_torn))
         .set("fired", J::Obj(fired.iter().map(|(k, v)| (k.to_string(), J::i(*v))).collect()))
         .set("outcome_classes", J::Obj(classes.iter().map(|(k, v)| (k.to_string(), J::i(*v))).collect()))
         .set("roles", J::Obj(role_counts.iter().map(|(k, v)| (k.to_string(), J::i(*v))).collect()))
@@ -768,6 +772,7 @@ pub fn batch(a: &Args, tier: &str, runs: u64, shards: u64, out_dir: &Path) -> Re
         .set("cwd_reads_during_expansion", J::Int(sum(&results, "cwd_reads_worker")))
         .set("file_opens_during_expansion", J::Int(sum(&results, "fs_calls_worker")))
         .set("cpu_count_reads_during_expansion", J::Int(sum(&results, "ncpu_reads_worker")))
+        .set("files_actually_torn_by_fs_tear", J::Int(sum(&results, "files_torn")))
         .set("entropy_draws_by_workers", J::Int(sum(&results, "getrandom_worker")))
         .set("perturbations_fired", fired_j)
         .set("fault_kinds_not_applicable", not_injected)
